@@ -2,7 +2,10 @@ package checks
 
 import (
 	"fmt"
+	"github.com/uhn/ggql/pkg/ggql"
 	"math/rand"
+	"sort"
+	"strings"
 
 	"verif/internal/back"
 	"verif/internal/gen"
@@ -250,8 +253,147 @@ func runC06(c *run.Ctx) {
 			}
 		}
 	}
+	sites += c06Subscription(c)
 	c.MinNontriv = sites / 10
 	c.Set("fault_sites_enumerated", sites)
+}
+
+// ---------------------------------------------------------------- failures while an event is resolved for a subscriber
+
+const c06SubSDL = `type Query { a: Int }
+type Subscription { listen: Ev }
+type Ev { id: ID boom: Int info: Inf list: [Inf] }
+type Inf { text: String boom: Int deeper: Inf }`
+
+type c06SubRoot struct{ sub *c06Sub }
+type c06Sub struct{ got []interface{} }
+
+func (s *c06Sub) Match(string) bool { return true }
+func (s *c06Sub) Send(v interface{}) error {
+	s.got = append(s.got, v)
+	return nil
+}
+func (s *c06Sub) Unsubscribe() {}
+
+type c06Subs struct{ r *c06SubRoot }
+
+func (r *c06SubRoot) Resolve(field *ggql.Field, args map[string]interface{}) (interface{}, error) {
+	if field.Name == "subscription" {
+		return &c06Subs{r}, nil
+	}
+	return nil, nil
+}
+func (s *c06Subs) Resolve(field *ggql.Field, args map[string]interface{}) (interface{}, error) {
+	s.r.sub = &c06Sub{}
+	return ggql.NewSubscription(s.r.sub, field, args), nil
+}
+
+// c06Ev / c06Inf fail on every field called boom.
+type c06Ev struct{ n int }
+type c06Inf struct{ depth int }
+
+func (e *c06Ev) Resolve(field *ggql.Field, args map[string]interface{}) (interface{}, error) {
+	switch field.Name {
+	case "id":
+		return "ev", nil
+	case "boom":
+		return nil, fmt.Errorf("%w in the event", back.ErrInjected)
+	case "info":
+		return &c06Inf{1}, nil
+	case "list":
+		l := make([]interface{}, e.n)
+		for i := range l {
+			l[i] = &c06Inf{1}
+		}
+		return l, nil
+	}
+	return nil, nil
+}
+func (i *c06Inf) Resolve(field *ggql.Field, args map[string]interface{}) (interface{}, error) {
+	switch field.Name {
+	case "text":
+		return "t", nil
+	case "boom":
+		return nil, fmt.Errorf("%w below the event", back.ErrInjected)
+	case "deeper":
+		return &c06Inf{i.depth + 1}, nil
+	}
+	return nil, nil
+}
+
+// c06Subscription: resolver failures while Root.AddEvent applies a subscriber's selection to an event. The error AddEvent
+// returns must carry one entry per failure with the path of that position below the subscription field, and the message
+// the subscriber receives has null exactly there.
+func c06Subscription(c *run.Ctx) int {
+	cases := []struct {
+		sel   string
+		n     int
+		paths []string
+	}{
+		{`{ id boom }`, 0, []string{"s:boom"}},
+		{`{ id info { text boom } }`, 0, []string{"s:info/s:boom"}},
+		{`{ b: boom info { text deeper { x: boom text } } }`, 0, []string{"s:b", "s:info/s:deeper/s:x"}},
+		{`{ list { text boom } id }`, 3, []string{"s:list/i:0/s:boom", "s:list/i:1/s:boom", "s:list/i:2/s:boom"}},
+		{`{ info { boom } list { deeper { boom } } boom }`, 2, []string{"s:info/s:boom", "s:list/i:0/s:deeper/s:boom", "s:list/i:1/s:deeper/s:boom", "s:boom"}},
+		{`{ id info { text } }`, 1, nil},
+	}
+	done := 0
+	for ci, cs := range cases {
+		for variant := 0; variant < 2; variant++ {
+			ro := &c06SubRoot{}
+			root := ggql.NewRoot(ro)
+			if err := root.ParseString(c06SubSDL); err != nil {
+				c.Violation("c06-subscription-schema", map[string]interface{}{"error": err.Error()})
+				return done
+			}
+			text := "subscription { listen " + cs.sel + " }"
+			var res map[string]interface{}
+			if variant == 0 {
+				res = root.ResolveString(text, "", nil)
+			} else {
+				exe, perr := root.ParseExecutableString(text)
+				if perr == nil {
+					var rerr error
+					if res, rerr = root.ResolveExecutable(exe, "", nil); rerr != nil {
+						res = map[string]interface{}{"errors": rerr.Error()}
+					}
+				}
+			}
+			if ro.sub == nil || (res != nil && res["errors"] != nil) {
+				c.Violation("c06-subscription", map[string]interface{}{"subscription": text, "diag": fmt.Sprint("subscription request failed: ", res)})
+				continue
+			}
+			var aerr error
+			pv, _ := run.Protect(func() { _, aerr = root.AddEvent("x", &c06Ev{n: cs.n}) })
+			done++
+			c.Eval(fmt.Sprintf("subscription-event|%d|%d", ci, variant), true)
+			c.Bucket("fault_kind", "failure-while-resolving-a-subscription-event")
+			var got []string
+			if aerr != nil {
+				for _, e := range ggql.FormErrorsResult(aerr) {
+					em, _ := e.(map[string]interface{})
+					p, _ := em["path"].([]interface{})
+					got = append(got, pathKey(p))
+				}
+			}
+			want := append([]string{}, cs.paths...)
+			sort.Strings(got)
+			sort.Strings(want)
+			diag := ""
+			switch {
+			case pv != nil:
+				diag = fmt.Sprintf("AddEvent panics: %v", pv)
+			case strings.Join(got, " ") != strings.Join(want, " "):
+				diag = fmt.Sprintf("error paths %v, expected %v (one entry per failure, addressed below the subscription field)", got, want)
+			case len(ro.sub.got) != 1:
+				diag = fmt.Sprintf("%d messages for one event", len(ro.sub.got))
+			}
+			if diag != "" {
+				c.Violation("c06-subscription-event", map[string]interface{}{"sdl": c06SubSDL, "subscription": text, "diag": diag, "message": fmt.Sprint(ro.sub.got)})
+			}
+		}
+	}
+	return done
 }
 
 // fragSegsAtSpreads checks the K-C06-fragseg predicate's second half: every
